@@ -119,8 +119,8 @@ pub fn check_key<V: Fv>(seed: [u8; 32], gso: bool, rep: &mut Report) {
 }
 
 pub fn keys(ctx: &Ctx, rep: &mut Report) {
-    let n512 = ctx.sz(96, 4000);
-    let n1024 = ctx.sz(24, 600);
+    let n512 = ctx.sz(224, 6000);
+    let n1024 = ctx.sz(40, 900);
     let gso512 = ctx.sz(2, 8);
     let gso1024 = ctx.sz(1, 3);
     let r = par_for(n1024, ncpu(), |i, rep| {
